@@ -537,7 +537,36 @@ func runC13(c *Ctx) {
 	} else {
 		c.Unk("C13.U3-decode-by-cid-codec", "ingest/schema.decodeIPLDNode", token.NoPos, "not found")
 	}
-	c.Floor("C13.U3-decode-by-cid-codec", 3)
+	// a decoder that accepts only some codecs accepts both the library encodes with: where the codec is compared with
+	// constants on the way to decoding, DAG-JSON (0x0129) and DAG-CBOR (0x71) are among them
+	{
+		consts := map[string]bool{}
+		for _, f := range c.Funcs(schemaPkg) {
+			instrs(f.SSA, func(in ssa.Instruction) {
+				bo, ok := in.(*ssa.BinOp)
+				if !ok || bo.Op != token.EQL {
+					return
+				}
+				k, isK := bo.Y.(*ssa.Const)
+				if !isK || k.Value == nil {
+					return
+				}
+				x := c.E(bo.X)
+				isCodec := x.Contains(func(y *X) bool {
+					return (y.Op == "field" && y.Name == "Codec") || (y.Op == "param" && strings.EqualFold(y.Name, "codec"))
+				})
+				if isCodec {
+					consts[k.Value.ExactString()] = true
+				}
+			})
+		}
+		if len(consts) == 0 {
+			c.OK("C13.U3-decode-by-cid-codec", "ingest/schema › codec allow-list", token.NoPos, "the decoders compare the codec with no constants: whatever is registered decodes")
+		} else {
+			c.Check(consts["297"] && consts["113"], "C13.U3-decode-by-cid-codec", "ingest/schema › codec allow-list", token.NoPos, "the codecs compared with include DAG-JSON and DAG-CBOR", "the decoder's list of accepted codecs lacks DAG-JSON (0x0129) or DAG-CBOR (0x71): blocks the library itself encodes with that codec are refused")
+		}
+	}
+	c.Floor("C13.U3-decode-by-cid-codec", 4)
 
 	// ---- U5 codecs registered ----------------------------------------------------------------------------------
 	if p := c.pkg(schemaPkg); p != nil {
@@ -727,6 +756,20 @@ func decodedHandedOnAsDecoded(c *Ctx, rule string) {
 			r := c.RetX(ret, 0)
 			if !(r != nil && r.Op == "deref" && Same(r.Args[0], rec)) {
 				okRet = false
+			}
+			// (a local copy that is handed on must not have a field replaced on the way: 'adv := *ad; adv.X = …')
+			if ld, isLoad := ret.Results[0].(*ssa.UnOp); isLoad {
+				if al, isAl := ld.X.(*ssa.Alloc); isAl && al.Referrers() != nil {
+					for _, rf := range *al.Referrers() {
+						if fa, isFA := rf.(*ssa.FieldAddr); isFA && fa.Referrers() != nil {
+							for _, r2 := range *fa.Referrers() {
+								if st, isSt := r2.(*ssa.Store); isSt && st.Addr == ssa.Value(fa) {
+									modified = st.Pos()
+								}
+							}
+						}
+					}
+				}
 			}
 		}
 		c.Check(!modified.IsValid() && okRet && nRet > 0, rule, f.Name+" › record handed on as decoded", f.SSA.Pos(), "success returns the unwrapped record itself and no field of it is stored to", "the decoded record is changed between unwrapping and return (at "+c.pos(modified)+") or something else is returned: the value no longer matches what was signed and encoded")
